@@ -185,7 +185,19 @@ class Lowerer:
                 return -v if v is not None else None
         return None
 
+    def _in_use_ns(self, o):
+        p = o
+        n = 0
+        while p is not None and n < 30:
+            if p.get('kind') == 'NamespaceDecl' and p.get('name') == 'phqv_use':
+                return True
+            p = self.ast.up(p)
+            n += 1
+        return False
+
     def _index_record(self, o, template):
+        if self._in_use_ns(o):
+            return
         if template:
             targs = []
             for c in kids(o):
